@@ -430,6 +430,16 @@ impl Ty {
                     c.push(lo + &half + 1);
                     c.push(hi - &half);
                 }
+                // Limb boundaries and the `prime / 2**128` zone, for wide ranges.
+                for k in [64u32, 96, 123, 124, 125, 128] {
+                    let p = BigInt::one() << k;
+                    c.push(&p - 1);
+                    c.push(p.clone());
+                    c.push(&p + 1);
+                    if k >= 64 {
+                        c.push(&p + (BigInt::one() << (k - 32)));
+                    }
+                }
                 c.retain(|x| x >= lo && x <= hi);
                 c.sort();
                 c.dedup();
@@ -472,7 +482,7 @@ impl Ty {
                     return vec![vec![Val::Arr(vec![])]];
                 }
                 let mut out = vec![vec![Val::Arr(vec![])]];
-                for len in [1usize, 2, 5] {
+                for len in [1usize, 2, 3, 4, 6, 9] {
                     for off in 0..2 {
                         let mut elems = vec![];
                         for i in 0..len {
@@ -554,6 +564,15 @@ pub fn input_tuples(params: &[Ty], cap: usize, n_random: usize, rng: &mut Rng) -
             let mut row = vec![];
             for s in &sets {
                 row.extend(s[(d * s.len()) / maxlen].clone());
+            }
+            out.push(row);
+        }
+        // Relations between parameters (index == length, a == b, ...): all parameters at the
+        // same small rank.
+        for rank in 0..4usize {
+            let mut row = vec![];
+            for s in &sets {
+                row.extend(s[rank.min(s.len() - 1)].clone());
             }
             out.push(row);
         }
